@@ -345,6 +345,8 @@ def rand_input(sort, r, ctx=None):
         return r.randint(-6, 6)
     if sort == 'nat':
         return r.randint(0, 6)
+    if sort == 'IntSeq':
+        return [r.randint(-3, 9) for _ in range(r.choice([0, 1, 1, 2, 3, 4, 6]))]
     if sort == 'small':
         return r.choice([-1, 0, 1, 1, 2, 2, 2, 3, 3, 4, 5])
     if sort == 'bool':
@@ -877,6 +879,9 @@ def main():
         cmd_rerun(sys.argv[2])
     elif cmd == 'crosscheck':
         cmd_crosscheck(sys.argv[2], int(sys.argv[3]), int(sys.argv[4]), sys.argv[5:])
+    elif cmd == 'libmodels':
+        import libmodels      # pyvc/libmodels.py (this script's directory is sys.path[0]); free of z3
+        print(json.dumps(libmodels.selfcheck()))
     else:
         raise SystemExit('unknown command')
 
